@@ -108,13 +108,13 @@ NamingOf(w) ==
    IN [lang |-> w.p.lang, feats |-> w.p.feats, done |-> w.next > Len(items), hasfresh |-> TRUE,
        items |-> [i \in DOMAIN items |->
                     IF i \in DOMAIN w.otn
-                    THEN [kind |-> items[i].kind, orig |-> items[i].orig, must |-> TRUE, named |-> TRUE,
+                    THEN [kind |-> items[i].kind, orig |-> items[i].orig, named |-> TRUE,
                           name |-> w.otn[i], back |-> Back(w, i), fresh |-> fr[i]]
-                    ELSE [kind |-> items[i].kind, orig |-> items[i].orig, must |-> TRUE, named |-> FALSE,
+                    ELSE [kind |-> items[i].kind, orig |-> items[i].orig, named |-> FALSE,
                           name |-> <<>>, back |-> 0, fresh |-> fr[i]]],
        \* one namespace for the model elements, one for the variables (stronger than the property asks)
-       spaces |-> << [sec |-> "global", var |-> FALSE, multi |-> FALSE, free |-> FALSE, items |-> AsSeq(G)],
-                     [sec |-> "vars", var |-> TRUE, multi |-> FALSE, free |-> FALSE, items |-> AsSeq(V)] >>,
+       spaces |-> << [sec |-> "global", var |-> FALSE, multi |-> FALSE, free |-> FALSE, must |-> TRUE, items |-> AsSeq(G)],
+                     [sec |-> "vars", var |-> TRUE, multi |-> FALSE, free |-> FALSE, must |-> TRUE, items |-> AsSeq(V)] >>,
        text |-> <<>>, tback |-> <<>>]
 
 IInit == /\ gkw = KW.general /\ wr = NoWriter /\ touched = 0 /\ fl = {} /\ DInit
